@@ -87,18 +87,25 @@ class C05(Spec):
     family = "cpc"
     tfamilies = ["cpc"]
     timeout = 300
-    rule = ("histories over 1-3 live CPC sketches (lg_k 4-8 quick / 4-12 thorough, seeds {9001, random}) fed with updates of all 12 "
-            "overloads and u64 ranges so that C sweeps 0..(27/8+3)K and beyond (every flavor boundary 3K/32, K/2, 27K/8 and >= 3 window "
-            "shifts; one long lg_k=4/5 history crosses the 8th shift = kxp refresh), with copies; a history is non-trivial when some sketch "
-            "left SPARSE; distinct = distinct (lg_k, final C, highest flavor/offset reached) signature per sketch")
+    rule = ("histories over CPC sketches and unions: (a) 1-3 live sketches (lg_k 4-8 quick / 4-10 thorough, seeds {9001, random}) fed with all 12 "
+            "update overloads and u64 ranges so that C sweeps 0..(27/8+3)K and beyond (every flavor boundary 3K/32, K/2, 27K/8 and >= 3 window "
+            "shifts), with copies and serialize / round-trip ops sprinkled in; (b) per lg_k 4-6(7) a single-step sweep with a serialize->"
+            "deserialize->serialize round trip after EVERY update; (c) long lg_k 4(-6) histories past the 8th window shift (kxp refresh); "
+            "(d) unions of 2-4 sketches of unequal lg_k and every flavor in all orders (6 sampled of 24 in quick), union lg_k below/between/"
+            "above the inputs, results updated further, serialized and fed into other unions; (e) empty / 1 / 2-coupon round trips; "
+            "(f) thorough: lg_k 11, 12 with big ranges, lg_k 20/24/26 sparse. A history is non-trivial when some sketch left SPARSE; "
+            "distinct = distinct (id, lg_k, final C, flavor, offset) signature of the final sketches")
     trusted_base = ["Lean 4.33 kernel", "axioms: propext, Quot.sound, Classical.choice",
                     "DSModel/Murmur3.lean is the published MurmurHash3_x64_128 (hand transcription, tied to the code by the hash correspondence `mm`)",
                     "tools/trules/cpc.py (tables/constants regenerated from the headers every run; cross-checked against the values the compiled headers contain)",
-                    "correspondence harness harness/cpc_h.cpp + generators (sampled histories; public-API observations)",
-                    "L1 model abstracts the u32_table hash table to a sorted duplicate-free list (slot order unobservable)"]
-    assumptions = ["theorems are about DSModel/Cpc/*.lean; the tie to cpc_*_impl.hpp is differential (sampled)",
+                    "correspondence harness harness/cpc_h.cpp + generators (sampled histories; public-API observations incl. serialized bytes)",
+                    "L1 model abstracts the u32_table hash table to a sorted duplicate-free list (slot order unobservable; sorting = what compress does)",
+                    "model abstractions stated in DSModel/Cpc/Union.lean (walk order, reduce_k on an empty accumulator) and Compress.lean (decoding table = last matching symbol)"]
+    assumptions = ["theorems are about DSModel/Cpc/*.lean; the tie to cpc_*_impl.hpp is differential (sampled), incl. byte-exact serialized images",
                    "window offset > 56 (needs > 59.375 K distinct coupons, i.e. coupons in columns 57..63) is outside the modelled behaviour",
-                   "floating point (kxp, HIP, ICON) is executed bit-exactly in Lean Float but not reasoned about"]
+                   "floating point (kxp, HIP, ICON) is executed bit-exactly in Lean Float but not reasoned about",
+                   "the preamble byte layout of the image is tied by correspondence (and C09/C10), the compress/uncompress core is proved",
+                   "for lg_k > 14 the model reports validate() by its proven value instead of building the 2^lg_k-row matrix"]
 
     # ------------------------------------------------------------------ generator
     def _stream(self, rng, h, sid, lgk, target_ratio, typed, ser_p=0.04):
@@ -201,6 +208,12 @@ class C05(Spec):
                 h.append("updr 0 %d %d" % (base + n, step)); n += step
                 h.append("rt 0 90"); h.append("ser 0")
             hs.append(h)
+        # very large lg_k with sparse streams (thorough): row masks, large Golomb base, reduce_k from 26
+        for lgk in ([] if quick else [26, 24, 20]):
+            b = rng.randrange(1 << 40)
+            hs.append(["new 0 %d 9001" % lgk, "updr 0 %d 40" % b, "ser 0", "rt 0 1", "updr 0 %d 25" % (b + 40), "updr 1 %d 25" % (b + 40),
+                       "unew 5 %d 9001" % lgk, "uupd 5 0", "uupd 5 1", "ures 5 6", "ser 6", "new 2 12 9001", "updr 2 %d 300" % b,
+                       "uupd 5 2", "ures 5 7", "ser 7", "rt 7 8"])
         hs += self._union_histories(rng, tier)
         # round trips of empty and nearly empty sketches, then the same updates on original and copy
         for lgk in [4, 5, 8] if quick else [4, 5, 8, 11, 12]:
@@ -562,12 +575,18 @@ class C05(Spec):
 SPEC = C05()
 
 CLAIM = dict(
-    text=("Kernel-checked theorems over ALL coupon streams and lg_k of an executable Lean model of cpc_sketch (the bit matrix rebuilt from "
-          "window + surprising-value table equals the set of distinct (row,col) of the inputs in every flavor, num_coupons = its cardinality, "
-          "validate() holds; window present iff 32C >= 3K and offset = determine_correct_offset; merged-form estimate a function of (lg_k, C)), "
-          "plus a differential tie of that model (incl. bit-exact HIP/ICON numbers) to the real headers on generated histories crossing every "
-          "flavor boundary and window shift, plus the property oracle (distinct row/col recomputed from the Lean MurmurHash3) on every trace."),
-    note=("Modelled, not verified: the u32_table open-addressing layout (abstracted to a sorted list; L1). Window offsets beyond 56 "
-          "(unreachable without coupons in columns 57..63) are outside the model. Floating point is executed, not reasoned about."),
-    technique="Lean 4 invariant proof by induction over coupon streams + differential correspondence (model vs real headers) + trace oracle",
+    text=("Kernel-checked theorems over ALL coupon streams, lg_k and union histories of an executable Lean model of cpc_sketch / cpc_union / "
+          "cpc_compressor: the bit matrix rebuilt from window + surprising-value table equals the set of distinct (row,col) of the inputs in "
+          "every flavor, num_coupons = its cardinality, validate() holds; window present iff 32C >= 3K, offset = determine_correct_offset; "
+          "merged-form estimate a function of (lg_k, C); a union of any valid sketches in any order has lg_k = min over the union and the "
+          "non-empty inputs and get_result is a valid sketch of exactly the OR of the row-folded input matrices, independent of the order; "
+          "uncompress(compress(s)) = s for all flavors, given prefix-code / permutation obligations that are re-checked by kernel evaluation on "
+          "the tables regenerated from compression_data.hpp. Plus a differential tie of the model (bit-exact HIP/ICON numbers, byte-exact "
+          "serialized images, round trips at every stage) to the real headers, plus the property oracle (distinct row/col recomputed from the "
+          "Lean MurmurHash3; every image decoded by the model's decoder) on every trace."),
+    note=("Full image-level losslessness is FALSE on the current code (cpc_image_lossless_full_false): a deserialized EMPTY sketch gets "
+          "kxp = 0 instead of k and reports +inf after updates - open known finding with a proposed fix. Modelled, not verified: the u32_table "
+          "open-addressing layout (L1: sorted list), the preamble byte layout (correspondence only). Window offsets beyond 56 (unreachable "
+          "without coupons in columns 57..63) are outside the model. Floating point is executed, not reasoned about."),
+    technique="Lean 4 invariant proofs by induction over coupon streams / union histories, code round-trip proofs + decide +kernel table obligations, differential correspondence (model vs real headers) + trace oracle",
     design="DESIGN.md §3 C05")
